@@ -30,6 +30,7 @@ type zzDictEntry struct {
 	Code   uint32 `json:"code"`
 	Vendor uint32 `json:"vendor"`
 	Type   int    `json:"type"`
+	Name   string `json:"name"`
 	Cmd    bool   `json:"cmd"`
 	NReq   int    `json:"nreq"`
 	NAns   int    `json:"nans"`
@@ -216,11 +217,21 @@ func vAbstractDict() *dict.Parser {
 			continue
 		}
 		seen[key] = true
-		name, ok := zzTypeNames[e.Type]
+		tname, ok := zzTypeNames[e.Type]
 		if !ok {
 			panic(zzDiverged{fmt.Sprintf("type id %d has no dictionary name", e.Type)})
 		}
-		fmt.Fprintf(get(e.App), `<avp name="A%d" code="%d" must="M" vendor-id="%d"><data type="%s"/></avp>`+"\n", i, e.Code, e.Vendor, name)
+		// a lookup by name elsewhere in the vector may denote the same definition
+		aname := e.Name
+		for _, o := range zzVec.Dict {
+			if !o.Cmd && o.Type >= 0 && o.Name != "" && o.App == e.App && o.Code == e.Code && o.Vendor == e.Vendor {
+				aname = o.Name
+			}
+		}
+		if aname == "" {
+			aname = fmt.Sprintf("A%d", i)
+		}
+		fmt.Fprintf(get(e.App), `<avp name="%s" code="%d" must="M" vendor-id="%d"><data type="%s"/></avp>`+"\n", aname, e.Code, e.Vendor, tname)
 	}
 	var x bytes.Buffer
 	x.WriteString("<?xml version=\"1.0\" encoding=\"UTF-8\"?>\n<diameter>\n")
